@@ -53,6 +53,14 @@ CritKind == "crit" \o (IF \E e \in Inside : e.ev = "Arrive" /\ e.h = obj.h THEN 
                    \o (IF out' # <<>> THEN "-emit" ELSE IF Len(pend') < Len(pend) THEN "-drop" ELSE "-move")
 ExportCrit == IF ExportOn /\ lab'.ev = "LoopCrit" /\ RandomElement(1..SampleMod) = 1
               THEN PrintT(ToJson([kind |-> CritKind, sched |-> hist'])) ELSE TRUE
+\* push-type family (MC_Tracker_types.cfg): every announcement of an item whose 128-bit hash value is shared with an item of the
+\* OTHER push type, keyed by both items' registry counters and by whether the twin is stored
+Twin(h) == IF h >= PlainBase THEN h - PlainBase ELSE h + PlainBase
+TypesKind == "types-" \o (IF lab'.h \in Plain THEN "plain" ELSE "tracked") \o "-own" \o ToString(cnt[lab'.h])
+                      \o "-twin" \o ToString(cnt[Twin(lab'.h)]) \o (IF Twin(lab'.h) \in has THEN "-twinstored" ELSE "")
+                      \o (IF out' # <<>> THEN "-ask" ELSE "-quiet")
+ExportTypes == IF ExportOn /\ lab'.ev = "Announce" /\ Twin(lab'.h) \in Hashes /\ RandomElement(1..SampleMod) = 1
+               THEN PrintT(ToJson([kind |-> TypesKind, sched |-> hist'])) ELSE TRUE
 \* simulation export: every step (the runner keeps maximal walks)
 ExportAll == IF ExportOn THEN PrintT(ToJson([sched |-> hist'])) ELSE TRUE
 =============================================================================
